@@ -1,4 +1,5 @@
 import TongoModel.WalletMsg
+import TongoModel.Hashmap
 /-! Outgoing (internal) messages a wallet is asked to send: `wallet.Message`, `wallet.SimpleTransfer`,
 `wallet.ContractDeploy` and their `ToInternal` + `tlb.Marshal` (wallet/models.go; tlb.Message / CommonMsgInfo /
 StateInit / Grams marshalling), with the state init they may carry, and the reading side (what a validator's
@@ -15,6 +16,7 @@ structure OutMsg where
   code : Option Cell := none
   data : Option Cell := none
   mode : Nat := 3
+  extra : List (Nat × Nat) := []   -- `SimpleTransfer.ExtraCurrency`: (uint32(currency id), amount), ids distinct
 
 /-- `len(big.Int.Bytes())`: the number of base-256 digits -/
 def byteLen (n : Nat) : Nat := if n = 0 then 0 else byteLen (n / 256) + 1
@@ -25,6 +27,24 @@ def gramsBits (n : Nat) : List Bool := natToBits 4 (byteLen n) ++ natToBits (8 *
 
 def writeGrams (b : CellB) (n : Nat) : Outcome CellB :=
   if byteLen n > 15 then .err "WriteLimUint: value is greater than the limit" else b.write (gramsBits n)
+
+/-- `VarUInteger 32` (the value type of `ExtraCurrencyCollection`): byte length on 5 bits, then the bytes; more than 31
+bytes is an error -/
+def varUInt32Bits (n : Nat) : List Bool := natToBits 5 (byteLen n) ++ natToBits (8 * byteLen n) n
+
+/-- the value codec of `HashmapE 32 (VarUInteger 32)` -/
+def extraCodec : Hashmap.Codec Nat where
+  enc n := if byteLen n > 31 then .err "WriteLimUint: value is greater than the limit" else .ok (varUInt32Bits n, [])
+  dec bits refs := (CellR.readUint { bits := bits, refs := refs } 5).bind fun x => (x.2.readUint (x.1 * 8)).bind fun y => .ok y.1
+
+/-- the entries `info.Value.Other.Dict.Put(tlb.Uint32(k), v)` leaves in the dictionary: key = the id on 32 bits -/
+def extraKvs (extra : List (Nat × Nat)) : List (Hashmap.Key × Nat) := extra.map fun p => (natToBits 32 p.1, p.2)
+
+/-- `ExtraCurrencyCollection` = `HashmapE 32 (VarUInteger 32)`: `hme_empty$0`, or `hme_root$1` and a reference to the
+dictionary (the shared model of C05: entries ordered by key bits, canonical labels) -/
+def writeExtra (b : CellB) (extra : List (Nat × Nat)) : Outcome CellB :=
+  if extra.isEmpty then b.write [false]
+  else (Hashmap.marshal extraCodec 32 (extraKvs extra)).bind fun d => (b.write [true]).bind fun b => b.addRef d
 
 /-- `Message.ToInternal`: a state init is attached only when BOTH code and data are given; then the code and the data
 are both marked present (`just$1 ^code`, `just$1 ^data`), nothing else is -/
@@ -47,7 +67,7 @@ def internalMsg (m : OutMsg) : Outcome Cell := do
   let b ← b.write ([true, false, false] ++ intToBits 8 (toI8 m.dest.workchain))
   let b ← b.writeBytes (m.dest.hash.take 32 ++ List.replicate (32 - m.dest.hash.length) 0)
   let b ← writeGrams b m.amount
-  let b ← b.write [false]
+  let b ← writeExtra b m.extra
   let b ← writeGrams b 0
   let b ← writeGrams b 0
   let b ← b.writeUint 0 64
@@ -56,7 +76,7 @@ def internalMsg (m : OutMsg) : Outcome Cell := do
   let b ← writeBodyRef b m.body
   pure b.toCell
 
-/-- the message written out (what `internalMsg` returns for a 32-byte address and a `uint64` amount) -/
+/-- the message written out (what `internalMsg` returns for a 32-byte address, a `uint64` amount and no extra currencies) -/
 def internalLayout (m : OutMsg) : Cell :=
   .ordinary ([false, true, m.bounce, false] ++ [false, false] ++ ([true, false, false] ++ intToBits 8 (toI8 m.dest.workchain)) ++
       bytesToBits m.dest.hash ++ gramsBits m.amount ++ [false] ++ gramsBits 0 ++ gramsBits 0 ++ natToBits 64 0 ++ natToBits 32 0 ++
@@ -76,9 +96,10 @@ def snake : (fuel : Nat) → (pre bits : List Bool) → Cell
 /-- `TextComment.MarshalTLB`: 32 zero bits, then the text as snake data -/
 def commentBody (text : List UInt8) : Cell := snake text.length (natToBits 32 0) (bytesToBits text)
 
-/-- `SimpleTransfer.ToInternal` (without extra currencies): default mode 3; no body for an empty comment -/
-def simpleTransfer (amount : Nat) (dest : Address) (comment : List UInt8) (bounce : Bool) : OutMsg :=
-  { bounce := bounce, dest := dest, amount := amount, mode := 3,
+/-- `SimpleTransfer.ToInternal`: default mode 3; no body for an empty comment; the extra currencies go into the value's
+`ExtraCurrencyCollection` -/
+def simpleTransfer (amount : Nat) (dest : Address) (comment : List UInt8) (bounce : Bool) (extra : List (Nat × Nat) := []) : OutMsg :=
+  { bounce := bounce, dest := dest, amount := amount, mode := 3, extra := extra,
     body := if comment.isEmpty then none else some (commentBody comment) }
 
 /-- `ContractDeploy.ToInternal` (code, data, body already cells): both code and data are required; the destination is
@@ -98,6 +119,15 @@ def readRefIf (r : CellR) (flag : Bool) : Outcome (Option Cell × CellR) :=
   if flag then (r.nextRef).bind fun x => .ok (some x.1, x.2) else .ok (none, r)
 
 def failIf (b : Bool) (msg : String) : Outcome Unit := if b then .err msg else .ok ()
+
+/-- `ExtraCurrencyCollection` decode: `HashmapE 32 (VarUInteger 32)` at the cursor (one bit, then a reference) -/
+def readExtra (r : CellR) : Outcome (List (Nat × Nat) × CellR) :=
+  (r.readBit).bind fun x =>
+    if x.1 then
+      (x.2.nextRef).bind fun y =>
+        (if y.1.ty = tyPruned then .ok [] else Hashmap.unmarshal extraCodec 32 y.1).bind fun kvs =>
+          .ok (kvs.map fun kv => (bitsToNat kv.1, kv.2), y.2)
+    else .ok ([], x.2)
 
 /-- `StateInit` struct decode returning the code and the data; a set library bit is outside the modelled fragment -/
 def readStateInit (r : CellR) : Outcome ((Option Cell × Option Cell) × CellR) := do
@@ -139,6 +169,7 @@ structure IntMsg where
   hasInit : Bool
   init : InitRead
   body : Cell
+  extra : List (Nat × Nat) := []
   deriving Inhabited
 
 def decodeIntInfo (r : CellR) : Outcome IntMsg := do
@@ -148,8 +179,7 @@ def decodeIntInfo (r : CellR) : Outcome IntMsg := do
   let (_, r) ← readMsgAddress r
   let (dest, r) ← readMsgAddress r
   let (amount, r) ← readGrams r
-  let (extra, r) ← r.readBit
-  let _ ← failIf extra "unmodelled: extra currencies"
+  let (extra, r) ← readExtra r
   let (_, r) ← readGrams r
   let (_, r) ← readGrams r
   let (_, r) ← r.readBits 64
@@ -157,7 +187,7 @@ def decodeIntInfo (r : CellR) : Outcome IntMsg := do
   let (hasInit, r) ← r.readBit
   let (i, r) ← readInitIf r hasInit
   let body ← readBody r
-  pure { bounce := bounce, dest := dest, amount := amount, hasInit := hasInit, init := i, body := body }
+  pure { bounce := bounce, dest := dest, amount := amount, hasInit := hasInit, init := i, body := body, extra := extra }
 
 def decodeInternal (c : Cell) : Outcome IntMsg :=
   if c.ty = tyLibrary then .err "library cell decoding is not configured properly"
